@@ -606,6 +606,9 @@ class PteraTransformer(NodeTransformer):
         wrapped_body.extend(hoister.declarations)
 
         new_body += self.visit_body(stmts)
+        if not isinstance(node.body[-1], (ast.Return, ast.Raise)):
+            # Falling off the end returns None: report it like a return
+            new_body.append(self.visit_Return(ast.Return(value=None)))
         new_body = self.delimit(
             new_body,
             ["#enter"],
